@@ -62,6 +62,18 @@ class Hook:
                     for k_ in keys:
                         st.fields[k_] = st.fields[k_] * e['value'] if e['op'] == '*=' else st.fields[k_] / e['value']
                     return [(e['value'], st)]
+        if k == 'MCall' and e.get('m') in ('setZero', 'setConstant', 'fill') and strip_casts(e['obj']).get('k') == 'MCall' and strip_casts(e['obj']).get('m') == 'row':
+            # J.row(n).setZero(): every entry of that row
+            ro = strip_casts(e['obj'])
+            b0, a0 = strip_casts(ro['obj']), strip_casts(ro['args'][0]) if ro.get('args') else {}
+            if b0.get('k') == 'Ref' and a0.get('k') == 'Ref':
+                out = []
+                for (vals, s2) in rd.evs(e.get('args', []), st, ctx):
+                    v_ = vals[0] if vals else sp.Integer(0)
+                    for kk in range(self.nparam):
+                        s2.fields[('loc', '%s[%s,%d]' % (b0['name'], a0['name'], kk))] = v_
+                    out.append((None, s2))
+                return out
         if k == 'MCall' and e.get('m') in ('estimateUsingSVD', 'estimateUsingCholeskyDecomposition', 'weightedEstimate'):
             self.x = mat.fresh('x', self.nparam, 1)
             return [(self.x, st)]
@@ -173,6 +185,8 @@ def read_estimate(fx, f, psize, nparam):
                         nxt += rd.ex(s['b'], y, ctx)
                 else:
                     nxt += rd.ex(s['b'], x, ctx)
+            for y in nxt:
+                y.continued = False          # one pass of the loop body: a `continue` ends the pass on that path
             states = nxt
         else:
             nxt = []
@@ -337,6 +351,40 @@ def check_estimate(fx, R, cq, cname, f, tag):
                 R.undecided('P1', inst + ':path[%s]' % desc_[:120] + ptag, 'the returned matrix is not readable on this path (a store the reader cannot model)')
         if len(readable) == 1:
             states = readable
+        elif len(readable) == len(states) and len(states) > 1:
+            # the loop body forks (a guard that skips or replaces the row of some correspondences): the path generic data take is judged below; on a guarded path the row and the residual written must be
+            # what the model gives UNDER the guard's equalities (a row may only be zeroed when the true row vanishes there)
+            def eqs_of(st_):
+                sub = {}
+                for c in st_.cond:
+                    rel = c[1] if c[2] else None
+                    parts = list(rel.args) if isinstance(rel, sp.And) else [rel] if rel is not None else []
+                    for r_ in parts:
+                        if isinstance(r_, sp.Equality) and r_.lhs.is_Symbol and r_.rhs.is_number:
+                            sub[r_.lhs] = r_.rhs
+                        elif isinstance(r_, sp.Equality) and r_.rhs.is_Symbol and r_.lhs.is_number:
+                            sub[r_.rhs] = r_.lhs
+                return sub
+            generic = [x_ for x_ in states if not eqs_of(x_)]
+            for x_ in [y_ for y_ in states if eqs_of(y_)]:
+                desc_ = ' && '.join(('' if c[2] else '!') + '(' + c[0] + ')' for c in x_.cond)
+                sub_ = eqs_of(x_)
+                nrm_ = mat.fresh('nrm', psize, 1)
+                written = {k_[1]: v_ for k_, v_ in x_.fields.items() if k_[0] == 'loc' and (k_[1].startswith('J[') or k_[1].startswith('Y['))}
+                # translation entries of the true row are the normal's Cartesian components: they vanish only if the whole Cartesian normal is zero under the guard
+                free_n = [nrm_[i_, 0] for i_ in range(D) if nrm_[i_, 0] not in sub_]
+                zeroed = [k_ for k_, v_ in written.items() if k_.startswith('J[') and v_ == 0]
+                if zeroed and free_n:
+                    R.violated('P1', inst + ':row:guarded-skip', 'on the path [%s] the row of the correspondence is zeroed (and its residual set to 0), i.e. the correspondence is dropped; under that condition the '
+                               'normal component(s) %s are still free, and the true row has them as its translation entries: every correspondence whose unit normal is parallel to that axis (a floor, a ceiling, a wall '
+                               'facing the axis) is silently ignored, so the parameters returned do not satisfy the normal equations of all the correspondences and a translation along that axis is not '
+                               'recovered%s' % (desc_[:160], [str(y_) for y_ in free_n], ptag), loc, 'E-ALG')
+                elif zeroed:
+                    R.holds('P1', inst + ':row:guarded-skip[%s]' % desc_[:60] + ptag, 'the row is zeroed only where the whole Cartesian normal vanishes', loc, 'E-ALG')
+                else:
+                    R.undecided('P1', inst + ':path[%s]' % desc_[:100] + ptag, 'a guarded path of the loop body that is not a row skip')
+            if len(generic) == 1:
+                states = generic
     if len(states) != 1 or len(loops) != 1 or H.x is None:
         R.undecided('P1', inst + ptag, 'body not readable as one accumulation loop followed by one solve (%d paths, %d loops)' % (len(states), len(loops)))
         return None
@@ -379,12 +427,21 @@ def check_estimate(fx, R, cq, cname, f, tag):
     R.check(lin and (skew + skew.T) == sp.zeros(D, D), 'P1', inst + ':scatter-skew', 'the rotation part of the scattered matrix is not identity + skew(x): %s%s' % (sp.Matrix(T)[:D, :D].tolist(), ptag),
             'M = I + skew + translation' + ptag, loc, 'E-ALG')
     bad = []
+    wdep = []
     for k in range(nparam):
         want = sp.diff(model, x[k, 0])
         got = rows[k][1]
         if sp.expand((got - want).subs(sub_h)) != 0:
             bad.append((k, got, want))
-    if bad:
+        elif sub_h and sp.expand(got - want) != 0 and any(y_ in sp.sympify(got).free_symbols for y_ in sub_h):
+            wdep.append((k, got, want))
+    if wdep and not bad:
+        k, got, want = wdep[0]
+        R.violated('P1', inst + ':row:homogeneous-coordinate', 'J(n,%d) is written as %s: it equals the derivative %s only when the homogeneous coordinate of the source point is 1.  The preconditioned point sets scale the '
+                   'WHOLE homogeneous vector, so a preconditioned homogeneous point carries w = scale: the rotation columns of J then lose the scale while the residual and the translation columns keep it, and the '
+                   'returned rotation is scale times the true one - the answer is no longer the same with or without isotropic preconditioning, nor for Cartesian versus homogeneous points%s' % (
+                       k, got, want, ptag), loc, 'E-ALG')
+    elif bad:
         k, got, want = bad[0]
         R.violated('P1', inst + ':row', 'J(n,%d) is written as %s, but the derivative of normal.(M(x) s) w.r.t. x_%d (the parameter scattered by the same function) is %s%s' % (k, got, k, want, ptag), loc, 'E-ALG')
     else:
